@@ -176,9 +176,56 @@ def flip_case(rng, s):
     return "".join(c.upper() if rng.random() < 0.5 else c.lower() for c in s)
 
 
+# the kinds of the `stations` argument (documented as `Union[str, Iterable]`): comma separated text; containers that can be
+# iterated again (list, tuple, set, dict keys view, numpy array of str); one-shot iterables (generator - e.g. names read
+# line by line from a station file -, map, filter, iterator, reversed), which hand their items out exactly once
+REITERABLE = ["list", "tuple", "set", "dictkeys", "nparray"]
+ONE_SHOT = ["generator", "map", "filter", "iter", "reversed"]
+
+
+def iter_order(st):
+    """the names in the order the argument hands them out when iterated once"""
+    v = list(st["value"])
+    if st["form"] == "set":
+        return list(set(v))
+    if st["form"] == "dictkeys":
+        return list(dict.fromkeys(v))
+    return v
+
+
+def build_stations(st):
+    """the real argument object; a new one on every call (a one-shot iterable is used up by the call)"""
+    v, form = list(st["value"]), st["form"]
+    if form == "text":
+        return st["value"]
+    if form == "list":
+        return v
+    if form == "tuple":
+        return tuple(v)
+    if form == "set":
+        return set(v)
+    if form == "dictkeys":
+        return dict.fromkeys(v).keys()
+    if form == "nparray":
+        import numpy as np
+
+        return np.array(v, dtype=str) if v else np.array([], dtype=str)
+    if form == "generator":
+        return (line.strip() for line in [x + "\n" for x in v])  # as when reading a station list file
+    if form == "map":
+        return map(str, v)
+    if form == "filter":
+        return filter(None, v + [""])
+    if form == "iter":
+        return iter(v)
+    if form == "reversed":
+        return reversed(v[::-1])
+    raise AssertionError(form)
+
+
 def gen_stations(rng, source):
     """stations argument: names known to the source (any letter case), sometimes an unknown one,
-    as comma separated text (with blanks) or as a list"""
+    as comma separated text (with blanks), as a container or as a one-shot iterable"""
     known = [st["key"].lower() for st in source] or ["osls"]
     n = rng.choice([1, 1, 1, 2, 2, 3])
     names = [rng.choice(known) for _ in range(n)]
@@ -188,7 +235,8 @@ def gen_stations(rng, source):
     if rng.random() < 0.5:
         pad = lambda: rng.choice(["", "", " ", "  ", "\t"])
         return {"form": "text", "value": ",".join(pad() + s + pad() for s in names)}
-    return {"form": "list", "value": names}
+    k = rng.random()
+    return {"form": "list" if k < 0.3 else rng.choice(REITERABLE[1:]) if k < 0.6 else rng.choice(ONE_SHOT), "value": names}
 
 
 def interesting_dates(rng, ivs):
@@ -321,7 +369,8 @@ def encode_source(kind, source):
 def encode_stations(st):
     if st["form"] == "text":
         return "T" + hexs(st["value"])
-    return "L" + (",".join(hexs(s) for s in st["value"]) if st["value"] else "[]")
+    names = iter_order(st)
+    return ("O" if st["form"] in ONE_SHOT else "L") + (",".join(hexs(s) for s in names) if names else "[]")
 
 
 def encode_query(kind, source, q):
@@ -369,9 +418,7 @@ def canon_err(ex):
 
 def call_real(mods, kind, data, q):
     """returns (canonical text, raw result or exception)"""
-    st = q["stations"]["value"]
-    if q["stations"]["form"] == "list":
-        st = list(st)
+    st = build_stations(q["stations"])
     date = q["date"]
     if isinstance(date, int):
         date = dt(date)
@@ -435,7 +482,7 @@ def inf_to(e):
 def norm_names(st):
     if st["form"] == "text":
         return [s.strip().lower() for s in st["value"].split(",")]
-    return [s.lower() for s in st["value"]]
+    return [s.lower() for s in iter_order(st)]
 
 
 def oracle_module_get(rep, kind, source, q, txt, raw, qi):
@@ -551,6 +598,7 @@ def check_case(ctx, drv, mods, case, rng, given=None):
         if ctx is not None:
             ctx.count(f"mod={q['mod']}")
             ctx.count(f"op={q['op']}")
+            ctx.count(f"stations={q['stations']['form']}" + ("(combined query)" if q["mod"] == "all" else ""))
             ctx.count("date=" + ("none" if q["date"] is None else q["date"] if q["date"] == "last" else "datetime"))
             ctx.count("answer=" + ("error" if txt.startswith("E:") else "none" if "=N" in txt and "T" not in txt else "entry"))
         # --- purity: the query must not change the source data
@@ -595,8 +643,9 @@ def check_case(ctx, drv, mods, case, rng, given=None):
             names = norm_names(q["stations"])
             if all(n and "," not in n and n == n.strip() for n in names):
                 alt_names = [flip_case(rng, n) for n in names]
-                if rng.random() < 0.5:
-                    alt = {"form": "list", "value": alt_names}
+                if rng.random() < 0.6:
+                    # (not a set: its iteration order, hence the order of the answer, is its own)
+                    alt = {"form": rng.choice([f for f in REITERABLE + ONE_SHOT if f != "set"]), "value": alt_names}
                 else:
                     alt = {"form": "text", "value": " , ".join(alt_names)}
                 fresh = make()
@@ -706,6 +755,10 @@ def systematic_cases():
                     for date in dates:
                         queries.append({"mod": mod, "op": "get", "stations": {"form": "text", "value": "OSLS"}, "date": date})
                     queries.append({"mod": mod, "op": "hist", "stations": {"form": "list", "value": ["Osls"]}, "date": None})
+                for form in REITERABLE[1:] + ONE_SHOT:  # every kind of the stations argument, combined query and one module
+                    for mod in ("all", "receiver"):
+                        queries.append({"mod": mod, "op": "get", "stations": {"form": form, "value": ["Osls"]}, "date": "last"})
+                        queries.append({"mod": mod, "op": "hist", "stations": {"form": form, "value": ["Osls"]}, "date": None})
                 cases.append({"kind": kind, "source": [st], "queries": queries + queries[:: max(1, len(queries) // 7)],
                               "label": f"{shape}/{kind}/{keycase}"})
     return cases
